@@ -14,7 +14,6 @@ TRUSTED = [
 ]
 
 KNOWN = {
-    "K1": "V1 formatter (cue/format node.go+printer.go, CUE_EXPERIMENT=formatv2=0) prints a unary operator and a unary operand with no blank even when the pair lexes as another token: `< -1` -> `<-1` (ARROW), `! =~\"a\"` -> `!=~\"a\"`, `< =~`, `> =~`, `< ==`, `> ==`, `! ==`; output does not parse (mayCombine has no case for LSS/GTR/NOT; UnaryExpr prints the operator with nooverride)",
     "K26": "V2 formatter on ASTs WITHOUT ParenExpr nodes: a right-nested chain of the same operator `a | (b | c)` / `a & (b & c)` is flattened to `a | b | c` (flattenBinaryChain walks both operands); the re-parsed tree is left-nested. Parsed sources are unaffected.",
 }
 
@@ -142,14 +141,11 @@ def expr_level(ctx, exe, harness, quick, stats):
                     bump(tag + st)
                     violation(c, "format.Node (formatter v%d) disagrees with the proved printer model: %s" % (v + 1, st[2:]), det, i, m)
                     continue
-                if st == "hazard" and v == 1:
-                    # K2 is fixed (internal/pretty intLitMergesWithPeriod): the default formatter glues no
-                    # hazardous pair any more
+                if st == "hazard":
+                    # K1 (printer.go opCombinesWith) and K2 (internal/pretty intLitMergesWithPeriod) are fixed:
+                    # the models of both formatters glue no hazardous pair any more
                     bump(tag + "V:hazard-pair-glued")
-                    violation(c, "format.Node (formatter v2) prints two tokens without the blank the scanner needs", "", i, m)
-                elif st == "hazard":
-                    bump(tag + "known K1")
-                    ctx.known_finding("C08-K1: " + KNOWN["K1"])
+                    violation(c, "format.Node (formatter v%d) prints two tokens without the blank the scanner needs" % (v + 1), "", i, m)
                 elif st == "hazard-fixed":
                     bump(tag + "hazard pair separated by the implementation (finding not reproduced)")
                 elif same == "0":
@@ -186,12 +182,9 @@ def expr_level(ctx, exe, harness, quick, stats):
                 if st.startswith("V:"):
                     bump(tag + st)
                     violation(c, "formatter v%d on a parsed expression disagrees with the proved model: %s" % (v + 1, st[2:]), det, i, m)
-                elif st == "hazard" and v == 1:
-                    bump(tag + "V:hazard-pair-glued")
-                    violation(c, "formatter v2 on a parsed expression prints two tokens without the blank the scanner needs (K2 is fixed)", "", i, m)
                 elif st == "hazard":
-                    bump(tag + "known K1")
-                    ctx.known_finding("C08-K1: " + KNOWN["K1"])
+                    bump(tag + "V:hazard-pair-glued")
+                    violation(c, "formatter v%d on a parsed expression prints two tokens without the blank the scanner needs (K1, K2 are fixed)" % (v + 1), "", i, m)
                 elif st == "hazard-fixed":
                     bump(tag + "hazard pair separated by the implementation (finding not reproduced)")
                 elif idem != "1":
@@ -212,7 +205,6 @@ def expr_level(ctx, exe, harness, quick, stats):
 
 
 FILE_KNOWN = {
-    "K1": KNOWN["K1"],
     "K3": "V1 -s: not idempotent (whitespace/commas only): nodes rewritten by Simplify (collapsed single-field structs, unquoted labels, re-created `...`) carry no position on the first pass, the layout settles on the second pass",
     "K4": "V2: `x: f(\\n\\ta, \"\")` - the first pass moves `)` to its own line, the second pass adds the trailing comma (not idempotent, tree unchanged)",
     "K5": "V1: an own-line comment after the last comprehension of a struct is printed between clause and body; with try/else the output does not parse",
@@ -243,6 +235,7 @@ FILE_KNOWN = {
 
 # classes fixed in /repo: the harness still recognises them, the check reports them as violations
 FIXED_CLASSES = {
+    "K1": "formatter V1 prints a unary < > ! and a unary operand without the blank the scanner needs (`< -1` -> `<-1`)",
     "K2": "formatter V2 prints an INT literal and a selector period without a blank (`1 .a` -> `1.a`)",
 }
 
@@ -418,6 +411,6 @@ def run(ctx):
 MANIFEST = {
     "category": "proof",
     "text": "Coq theorems about a token-level model of CUE expressions, for all trees and all token lists: the parser model returns exactly the tree whose parentheses the old printer (node.go) emits (parse (print e) = canon e, unparen (canon e) = unparen e), so no parenthesis can be dropped or misplaced; print . parse is idempotent and reaches its normal form in one step; the only tree change is the collapse of directly nested parentheses; on parser-produced trees the default printer (internal/pretty) prints the same tokens; a separated token sequence scans back to itself and layout-dependent blanks are never needed. The model is tied to /repo by exact agreement of scanner tokens, parser trees and formatter output tokens for both formatters on generated trees, token soups and character sequences. Formatting whole files (comments, layout, declarations, -s) is explored directly on the implementation: every embedded .cue source, its mutations and generated programs must format, be byte-identical when formatted again, and keep their position-free structural dump.",
-    "note": "Trusted: Coq kernel; hand-written models of scanner/parser/printers for expressions only; extraction and drivers. NOT modelled: whitespace/comment interleaving (printer.go), the internal/pretty layout engine, declarations, simplify.go - covered only by direct exploration of format.Source on the corpus, mutants and generated programs. Known deviations K1, K26 (formatter v1 glues `<` `-`; K2 - formatter v2 glued INT `.` - is fixed; v2 on paren-free ASTs flattens right-nested | & chains; K25 - v2 dropped parentheses around unary operands of postfix operators - is fixed) are modelled and reported as KNOWN-FINDING.",
+    "note": "Trusted: Coq kernel; hand-written models of scanner/parser/printers for expressions only; extraction and drivers. NOT modelled: whitespace/comment interleaving (printer.go), the internal/pretty layout engine, declarations, simplify.go - covered only by direct exploration of format.Source on the corpus, mutants and generated programs. Known deviations K26 (K1 - formatter v1 glued `<` `-` - is fixed; K2 - formatter v2 glued INT `.` - is fixed; v2 on paren-free ASTs flattens right-nested | & chains; K25 - v2 dropped parentheses around unary operands of postfix operators - is fixed) are modelled and reported as KNOWN-FINDING.",
     "technique": "Coq proof (precedence-climbing parser vs precedence printer; scanner separation) + extracted-model differential check + direct round-trip exploration on files",
 }
